@@ -258,6 +258,11 @@ pub fn c01(ctx: &Ctx) {
     ctx.set_rule("U_val (all presence subsets, every atom of every field alone and with all others present, full products of the flag groups, user-property lists; thorough: all pairs) ∪ U_size (field lengths 0/1/127/128/16383/16384/65535, remaining lengths on every width boundary); each value: encode, blocking decode, async decode (always ready + all compositions for <= 10 bytes, else deviation-bounded cut sets, with and without Pending), poll decode with total and body; oracle = the crate's PartialEq against the original, header width from the reference varint; non-trivial = values with an optional field, property, code or list element present");
     run_family::<V3>(ctx, "C01", &|c, a| c01_item::<V3>(c, a));
     run_family::<V5>(ctx, "C01", &|c, a| c01_item::<V5>(c, a));
+    // the round trip must not depend on what the thread encoded or decoded before
+    crate::checks::history::decode_history::<V3>(ctx, "C01");
+    crate::checks::history::decode_history::<V5>(ctx, "C01");
+    crate::checks::history::encode_history::<V3>(ctx, "C01");
+    crate::checks::history::encode_history::<V5>(ctx, "C01");
 }
 
 // ---------------------------------------------------------------------------------------------
@@ -781,6 +786,9 @@ pub fn c09(ctx: &Ctx) {
     }
     fam::<V3>(ctx);
     fam::<V5>(ctx);
+    // repeated invocations: every ordered pair of encodes on one thread against fresh-thread baselines
+    crate::checks::history::encode_history::<V3>(ctx, "C09");
+    crate::checks::history::encode_history::<V5>(ctx, "C09");
 }
 
 // ---------------------------------------------------------------------------------------------
